@@ -195,7 +195,9 @@ class ListGen:
             if "list-grow" in self.hz and info["t"] == "int":
                 self.L.append(f"{ind}{nm}.append(count)")
                 self.features.add("hz:list-grow")
-        if getattr(self, "swap_pair", None) and r.random() < 0.6:
+        if getattr(self, "swap_pair", None) and r.random() < 0.6 and \
+                len(self.lists[self.swap_pair[0]]["vals"]) == len(self.lists[self.swap_pair[1]]["vals"]) > 0:
+            # swapping on every pass is only index-safe (and len()-stable) for lists of equal length
             a1, b1 = self.swap_pair
             self.L.append(f"{ind}{a1}, {b1} = {b1}, {a1}")
             self.L.append(f"{ind}mon.write(len({a1}))")
